@@ -1282,6 +1282,11 @@ func (f *frame) runBlock(b *ssa.BasicBlock, st *State, be map[[2]int]bool, loopO
 			o := e.oblige("inv", g, "step", cond, f.evalSpec(inv.Src, st, env, nil))
 			o.Slow = inv.Slow
 		}
+		for _, ks := range hi.spec.Keeps {
+			f.prevHdr = hi
+			f.keepObligations(ks, st, env, cond, fmt.Sprintf("loop%d/step", loopOrd[s.Index]))
+			f.prevHdr = nil
+		}
 		for _, sc := range hi.spec.Steps {
 			g := fmt.Sprintf("%s/loop%d/step:%s", f.name, loopOrd[s.Index], sc.Label)
 			f.prevHdr = hi
